@@ -6,7 +6,7 @@
 //!
 //! The oracle works on an abstract model (`St`, `Ev`); the same model is rendered to PDUs with JSON contents for the
 //! real code. Third-party-invite member events (signature checking) are not generated.
-use std::collections::HashMap;
+use std::collections::{BTreeSet, HashMap};
 
 use ruma_common::{
     room_version_rules::AuthorizationRules, MilliSecondsSinceUnixEpoch, OwnedEventId, OwnedRoomId, OwnedUserId, RoomId, UserId,
@@ -1008,6 +1008,113 @@ fn scenario_helpers(vname: &str, rules: &AuthorizationRules, acc: &mut Acc) {
     }
 }
 
+// ------------------------------------------------------------------------------------------------ C09: the selection itself
+/// The subset of the room state the specification names for an event ("auth events selection"), written from the
+/// specification text and independent of the code. `None` = the content is malformed in a field the selection needs.
+fn spec_selection(ty: &str, sender: &str, state_key: Option<&str>, content: &Value, rules: &AuthorizationRules) -> Option<BTreeSet<(String, String)>> {
+    let mut s = BTreeSet::new();
+    if ty == "m.room.create" {
+        return Some(s);
+    }
+    s.insert(("m.room.create".to_owned(), String::new()));
+    s.insert(("m.room.power_levels".to_owned(), String::new()));
+    s.insert(("m.room.member".to_owned(), sender.to_owned()));
+    if ty == "m.room.member" {
+        let sk = state_key?;
+        s.insert(("m.room.member".to_owned(), sk.to_owned()));
+        let membership = content.get("membership")?.as_str()?;
+        if matches!(membership, "join" | "invite" | "knock") {
+            s.insert(("m.room.join_rules".to_owned(), String::new()));
+        }
+        if membership == "invite" {
+            match content.get("third_party_invite") {
+                None | Some(Value::Null) => {}
+                Some(tpi) => {
+                    let token = tpi.as_object()?.get("signed")?.as_object()?.get("token")?.as_str()?;
+                    s.insert(("m.room.third_party_invite".to_owned(), token.to_owned()));
+                }
+            }
+        }
+        if membership == "join" && rules.restricted_join_rule {
+            match content.get("join_authorised_via_users_server") {
+                None | Some(Value::Null) => {}
+                Some(u) => {
+                    let u = u.as_str()?;
+                    OwnedUserId::try_from(u).ok()?;
+                    s.insert(("m.room.member".to_owned(), u.to_owned()));
+                }
+            }
+        }
+    }
+    Some(s)
+}
+
+fn selection_check(vname: &str, rules: &AuthorizationRules, f: &mut Vec<Value>) -> u64 {
+    let mut n = 0;
+    let tpis: Vec<Option<Value>> = vec![
+        None,
+        Some(json!(null)),
+        Some(json!("gone")),
+        Some(json!(7)),
+        Some(json!({"display_name": "x"})),
+        Some(json!({"display_name": "x", "signed": {"mxid": B, "token": "tok", "signatures": {}}})),
+        Some(json!({"signed": {"mxid": B}})),
+        Some(json!({"signed": {"token": 5}})),
+        Some(json!({"signed": "s"})),
+    ];
+    let vias: Vec<Option<Value>> = vec![None, Some(json!(null)), Some(json!(C)), Some(json!("nobody")), Some(json!(1)), Some(json!({"u": C})), Some(json!(A))];
+    let memberships: Vec<Option<Value>> =
+        vec![Some(json!("join")), Some(json!("invite")), Some(json!("leave")), Some(json!("ban")), Some(json!("knock")), Some(json!("other")), Some(json!(3)), None];
+    let types = ["m.room.member", "m.room.create", "m.room.message", "m.room.power_levels", "m.room.join_rules", "m.room.third_party_invite", "org.x"];
+    for ty in types {
+        for sender in [A, B] {
+            for sk in [None, Some(""), Some(A), Some(B), Some("not a user id")] {
+                for m in &memberships {
+                    for tpi in &tpis {
+                        for via in &vias {
+                            let mut c = serde_json::Map::new();
+                            if let Some(m) = m {
+                                c.insert("membership".into(), m.clone());
+                            }
+                            if let Some(t) = tpi {
+                                c.insert("third_party_invite".into(), t.clone());
+                            }
+                            if let Some(v) = via {
+                                c.insert("join_authorised_via_users_server".into(), v.clone());
+                            }
+                            let content = Value::Object(c);
+                            n += 1;
+                            let want = spec_selection(ty, sender, sk, &content, rules);
+                            let raw = serde_json::value::to_raw_value(&content).unwrap();
+                            let su = OwnedUserId::try_from(sender).unwrap();
+                            let got = std::panic::catch_unwind(std::panic::AssertUnwindSafe(|| {
+                                auth_types_for_event(&TimelineEventType::from(ty), &su, sk, &raw, rules)
+                            }));
+                            let got_set: Option<Option<BTreeSet<(String, String)>>> = match &got {
+                                Err(_) => None,
+                                Ok(Err(_)) => Some(None),
+                                Ok(Ok(v)) => Some(Some(v.iter().map(|(t, k)| (t.to_string(), k.clone())).collect())),
+                            };
+                            let dup = matches!(&got, Ok(Ok(v)) if v.iter().collect::<BTreeSet<_>>().len() != v.len());
+                            if (got_set != Some(want.clone()) || dup) && f.len() < 25 {
+                                f.push(json!({
+                                    "rules": vname, "event": {"type": ty, "sender": sender, "state_key": sk, "content": content},
+                                    "auth_types_for_event": match &got { Err(_) => json!("panic"), Ok(Err(e)) => json!({"Err": e}),
+                                        Ok(Ok(v)) => json!(v.iter().map(|(t, k)| format!("({t}, {k:?})")).collect::<Vec<_>>()) },
+                                    "specified_selection": match &want { None => json!("Err (a field the selection reads is malformed)"),
+                                        Some(s) => json!(s.iter().map(|(t, k)| format!("({t}, {k:?})")).collect::<Vec<_>>()) },
+                                    "duplicate_entries": dup,
+                                }));
+                            }
+                        }
+                    }
+                }
+            }
+        }
+    }
+    n
+}
+
 pub fn run(tier: &str) -> Report {
     let thorough = tier == "thorough";
     let versions: Vec<(&'static str, AuthorizationRules)> = vec![
@@ -1019,6 +1126,11 @@ pub fn run(tier: &str) -> Report {
         ("V10", AuthorizationRules::V10),
         ("V11", AuthorizationRules::V11),
     ];
+    let mut fselection = vec![];
+    let mut nselection = 0;
+    for (vn, r) in &versions {
+        nselection += selection_check(vn, r, &mut fselection);
+    }
     let handles: Vec<_> = versions
         .into_iter()
         .flat_map(|(vn, r)| (0..6).map(move |part| (vn, r.clone(), part)))
@@ -1090,6 +1202,7 @@ pub fn run(tier: &str) -> Report {
             ("power_level_helpers_answer_as_auth_check_decides", n[4], f4),
             ("third_party_invites_accepted_exactly_as_the_rules_say", n[5], f5),
             ("decision_depends_only_on_the_selected_auth_state_entries", total, fsel),
+            ("selection_is_the_specified_subset_of_the_state", nselection, fselection),
             ("auth_check_never_panics", total, fp),
         ],
     }
